@@ -349,6 +349,18 @@ def generate(repo):
         rows.append(f"  ({cstr(c)}, {clist([f'({cstr(k)}, {coq_z(v)})' for k, v in nd])})")
     out.append("Definition registered : list (string * list (string * Z)) := [\n" + ";\n".join(rows) + "\n].\n")
 
+    editable = []
+    for path in files:
+        for cd in ast.parse(open(path).read()).body:
+            if isinstance(cd, ast.ClassDef):
+                for n in cd.body:
+                    if isinstance(n, ast.Assign) and len(n.targets) == 1 and is_name(n.targets[0], "_editable_field_func"):
+                        if not (isinstance(n.value, ast.Constant) and isinstance(n.value.value, bool)):
+                            fail(n, "_editable_field_func is not a boolean literal")
+                        if n.value.value:
+                            editable.append(cd.name)
+    out.append("(* classes with `_editable_field_func = True`: only there is field_func a settable attribute *)\n"
+               f"Definition editable_field_func : list string := {clist([cstr(c) for c in editable])}.\n")
     if tetra_setters not in ([], [("Tetrahedron", "vertices")]):
         raise Untranslatable(f"check_format_input_tetrahedron used by {tetra_setters}")
     out.append("(* Tetrahedron.vertices goes through check_format_input_tetrahedron (vector check + coplanarity guard) *)\n"
